@@ -62,7 +62,9 @@ func runEnum[C any](t *testing.T, id string, p core.Prop[C], atoms []string, max
 	enumStrings(atoms, maxLen, shard, shards, func(s string) bool {
 		for _, c := range mk(s) {
 			r := &core.Rec{}
+			core.Watch(p.ID, c)
 			core.SafeCheck(p, c, r)
+			core.Unwatch()
 			if core.Account(p.ID, c, r) {
 				failed = true
 				t.Errorf("VIOLATION %s (enumeration %s): %s", p.ID, id, r.Message())
@@ -200,7 +202,9 @@ func runHistEnum(t *testing.T, p core.Prop[CaseHist], tail []Op) {
 		for _, st := range enumHistStarts {
 			c := CaseHist{Input: B(st), Ops: append(append([]Op{}, ops...), tail...)}
 			r := &core.Rec{}
+			core.Watch(p.ID, c)
 			core.SafeCheck(p, c, r)
+			core.Unwatch()
 			if core.Account(p.ID, c, r) {
 				failed = true
 				t.Errorf("VIOLATION %s (history enumeration): %s", p.ID, r.Message())
